@@ -12,6 +12,7 @@ import (
 	"sort"
 	"strconv"
 	"strings"
+	"sync/atomic"
 	"syscall"
 	"time"
 )
@@ -41,6 +42,10 @@ type Prop struct {
 	// Exhaustive reports (after the loop) whether a finite space was enumerated completely.
 	RequireProbes []string
 	ShrinkBudget  time.Duration
+	// StallLimit: if a run makes no progress (no Heartbeat) for this long in real time, OnStall
+	// classifies the situation (violation or nil = harness trouble) and the worker ends.
+	StallLimit time.Duration
+	OnStall    func(c *Ctx) *Violation
 }
 
 type foundViolation struct {
@@ -358,6 +363,49 @@ func worker(p *Prop, tier string) (code int) {
 		}
 	}
 	deadline := start.Add(b.Wall)
+	var curCtx atomic.Pointer[Ctx]
+	var curSeed atomic.Uint64
+	if p.StallLimit > 0 {
+		Heartbeat()
+		go func() {
+			last, since := beats.Load(), time.Now()
+			for {
+				time.Sleep(p.StallLimit / 8)
+				c := curCtx.Load()
+				if b := beats.Load(); c == nil || b != last {
+					last, since = b, time.Now()
+					continue
+				}
+				if time.Since(since) < p.StallLimit {
+					continue
+				}
+				// stalled in real time: classify, persist, leave
+				buf := make([]byte, 1<<20)
+				n := runtime.Stack(buf, true)
+				os.WriteFile(filepath.Join(wd, "stall-stacks.txt"), buf[:n], 0644)
+				if os.Getenv("VERIF_DEBUG") != "" {
+					os.Stderr.Write(buf[:n])
+				}
+				var v *Violation
+				if p.OnStall != nil {
+					v = p.OnStall(c)
+				}
+				if v == nil {
+					res.HarnessErr = fmt.Sprintf("run stalled for %v in real time (seed %d)", p.StallLimit, curSeed.Load())
+				} else {
+					res.Violations = append(res.Violations, &foundViolation{Violation: *v, Seed: curSeed.Load(), Seq: c.Src.Seq(),
+						Draws: c.Src.Render(), Scenario: append([]string(nil), c.Log...), Count: 1, OrigLen: len(c.Src.Rec)})
+				}
+				res.WallS = time.Since(start).Seconds()
+				data, _ := json.Marshal(res)
+				os.WriteFile(filepath.Join(wd, "result.json"), data, 0644)
+				if v == nil {
+					os.Exit(2)
+				}
+				os.Exit(0)
+			}
+		}()
+	}
 	for k := 0; ; k++ {
 		if b.Runs > 0 && k >= b.Runs {
 			break
@@ -369,7 +417,14 @@ func worker(p *Prop, tier string) (code int) {
 		_ = nshards
 		c := NewCtx(NewRandom(s))
 		c.Tier, c.Dir = tier, wd
-		v := runOnce(p, c)
+		curSeed.Store(s)
+		guarded := func(c *Ctx) *Violation {
+			Heartbeat()
+			curCtx.Store(c)
+			defer curCtx.Store(nil)
+			return runOnce(p, c)
+		}
+		v := guarded(c)
 		res.Runs++
 		if len(res.Seeds) < 8 {
 			res.Seeds = append(res.Seeds, s)
@@ -409,12 +464,12 @@ func worker(p *Prop, tier string) (code int) {
 			min := Shrink(seq, func(cand []uint64) bool {
 				c2 := NewCtx(NewReplay(cand))
 				c2.Tier, c2.Dir, c2.Replay = tier, wd, true
-				v2 := runOnce(p, c2)
+				v2 := guarded(c2)
 				return v2 != nil && v2.Sig() == sig
 			}, shrinkBudget)
 			c3 := NewCtx(NewReplay(min))
 			c3.Tier, c3.Dir, c3.Replay = tier, wd, true
-			v3 := runOnce(p, c3)
+			v3 := guarded(c3)
 			if v3 != nil && v3.Sig() == sig {
 				fv.Reproduced = true
 				fv.Violation = *v3
@@ -566,24 +621,24 @@ func report(p *Prop, tier string, seed uint64, b Budget, results []*shardResult,
 		}
 	}
 	cov := map[string]any{
-		"evaluations":              runs,
-		"distinct_nontrivial":      len(hashesNT),
-		"distinct_interleavings":   len(hashes),
-		"rule":                     p.Rule,
-		"samples":                  samples,
-		"states":                   len(states),
-		"fault_kinds_fired":        faults,
-		"reach_probes":             probes,
-		"reach_probes_missing":     missing,
-		"simulated_time_s":         float64(simNS) / 1e9,
-		"runs_per_hour":            float64(runs) / wall.Hours(),
-		"shards":                   len(results),
-		"seed_derivation":          "run seed = mix(VERIF_SEED, shard, k); every run is replayable from its seed or its recorded choice sequence",
-		"seeds_sample":             seeds,
-		"components":               p.Components,
-		"worlds":                   p.Worlds,
-		"known_findings_seen":      knownSeen,
-		"exhaustive":               false,
+		"evaluations":            runs,
+		"distinct_nontrivial":    len(hashesNT),
+		"distinct_interleavings": len(hashes),
+		"rule":                   p.Rule,
+		"samples":                samples,
+		"states":                 len(states),
+		"fault_kinds_fired":      faults,
+		"reach_probes":           probes,
+		"reach_probes_missing":   missing,
+		"simulated_time_s":       float64(simNS) / 1e9,
+		"runs_per_hour":          float64(runs) / wall.Hours(),
+		"shards":                 len(results),
+		"seed_derivation":        "run seed = mix(VERIF_SEED, shard, k); every run is replayable from its seed or its recorded choice sequence",
+		"seeds_sample":           seeds,
+		"components":             p.Components,
+		"worlds":                 p.Worlds,
+		"known_findings_seen":    knownSeen,
+		"exhaustive":             false,
 	}
 	ev := map[string]any{
 		"property_id": p.ID,
